@@ -177,6 +177,7 @@ struct Acc {
     handler_runs: u64,
     state_changes: u64,
     next_id: u64,
+    ws: Vec<Value>,
     distinct: std::collections::BTreeSet<String>,
 }
 
@@ -418,9 +419,44 @@ async fn run_server(enabled: bool, names: &[String], acc: &mut Acc, thorough: bo
         }
     }
 
+    // phase E: the same server also speaks WebSocket; the HTTP layer sees the upgrade request
+    s.reset().await?;
+    ws_probe(&addr, enabled, &mine_p, acc).await;
+
     handle.stop()?;
     handle.stopped().await;
     Ok(())
+}
+
+/// WebSocket connections: the Authorization header of the upgrade request decides for the whole
+/// connection. Harness-side reference check only (no Coq case: a WS message is a `Call`).
+async fn ws_probe(addr: &str, enabled: bool, mine_p: &Value, acc: &mut Acc) {
+    use jsonrpsee::core::client::ClientT;
+    use jsonrpsee::ws_client::{HeaderMap, HeaderValue, WsClientBuilder};
+    let variants: Vec<(&str, Option<String>)> = vec![("none", None), ("wrong_password", Some(rpcx::basic(USER, "wrong"))), ("correct", Some(rpcx::basic(USER, PASSWORD)))];
+    let params: Vec<Value> = mine_p.as_array().cloned().unwrap_or_default();
+    for (name, hv) in variants {
+        let mut hm = HeaderMap::new();
+        if let Some(v) = &hv { hm.insert("Authorization", HeaderValue::from_str(v).unwrap()); }
+        let client = match WsClientBuilder::default().set_headers(hm).build(format!("ws://{}", addr)).await {
+            Ok(c) => c,
+            Err(e) => { acc.ws.push(json!({"auth_enabled": enabled, "header": name, "connect_error": e.to_string()})); continue; }
+        };
+        let authorised = !enabled || name == "correct";
+        vh::drain();
+        vh::set_recording(true);
+        let public: Result<String, _> = client.request("eth_blockNumber", Vec::<Value>::new()).await;
+        let prot: Result<Value, _> = client.request("brc20_mine", params.clone()).await;
+        vh::set_recording(false);
+        let muts = vh::drain().iter().filter(|e| rpcx::is_mutation(e)).count();
+        let prot_s = match &prot { Ok(_) => "result".to_string(), Err(e) => e.to_string() };
+        acc.ws.push(json!({"auth_enabled": enabled, "header": name, "eth_blockNumber": public.as_ref().map(|s| s.clone()).map_err(|e| e.to_string()).unwrap_or_else(|e| e), "brc20_mine": prot_s, "store_mutation_events": muts}));
+        if public.is_err() { acc.failures.push(json!({"what": "websocket: public method refused", "case": {"auth_enabled": enabled, "header": name}})); }
+        if !authorised && (prot.is_ok() || muts > 0 || !prot_s.contains("Unauthorized")) {
+            acc.failures.push(json!({"what": format!("websocket: unauthenticated brc20_mine was not refused with Unauthorized (answer {}, {} mutation events)", prot_s, muts), "case": {"auth_enabled": enabled, "header": name}}));
+        }
+        if authorised && prot.is_err() { acc.failures.push(json!({"what": format!("websocket: authenticated brc20_mine failed: {}", prot_s), "case": {"auth_enabled": enabled, "header": name}})); }
+    }
 }
 
 /// validate_config on the whole small configuration space; start() on the authentication part.
@@ -461,7 +497,7 @@ pub fn run(out: &Path, _seed: u64, thorough: bool) -> Result<(), Box<dyn std::er
     rpcx::install_span_recorder();
     let rt = tokio::runtime::Builder::new_multi_thread().worker_threads(4).enable_all().build()?;
     let mut acc = Acc { terms: vec![], jsonl: vec![], failures: vec![], samples: vec![], by_class: BTreeMap::new(), by_header: BTreeMap::new(), by_shape: BTreeMap::new(),
-        auth_result: BTreeMap::new(), unauth_401: BTreeMap::new(), handler_runs: 0, state_changes: 0, next_id: 0, distinct: Default::default() };
+        auth_result: BTreeMap::new(), unauth_401: BTreeMap::new(), handler_runs: 0, state_changes: 0, next_id: 0, ws: vec![], distinct: Default::default() };
     let names: Vec<String> = {
         let e = methods::fresh_uninitialised()?;
         let mut v: Vec<String> = e.methods.method_names().map(|s| s.to_string()).collect();
@@ -508,6 +544,7 @@ pub fn run(out: &Path, _seed: u64, thorough: bool) -> Result<(), Box<dyn std::er
         "requests_that_changed_state": acc.state_changes,
         "methods_with_authenticated_result": acc.auth_result.len(),
         "unauthenticated_401_per_protected_method": acc.unauth_401,
+        "websocket_probe": acc.ws,
         "server_seconds": t0.elapsed().as_secs_f64(),
     });
     std::fs::write(out.join("c12_meta.json"), serde_json::to_string_pretty(&meta)?)?;
